@@ -34,6 +34,9 @@ type Step struct {
 	Op    string          `json:"op"`
 	Args  json.RawMessage `json:"args,omitempty"`
 	Fault *StepFault      `json:"fault,omitempty"`
+	// MayReject: the statement does not say whether the API accepts this edit; it may reject it
+	// (document byte-identical) or perform it, and if it reports success the model's result is due.
+	MayReject bool `json:"may_reject,omitempty"`
 }
 
 func (s Step) String() string {
@@ -309,6 +312,9 @@ func Run(st Store, h History) (*Violation, Stats, error) {
 		}
 		if panicked {
 			return mk("panic", "the step panicked without any injected fault"), stats, nil
+		}
+		if expectOK && failed && s.MayReject {
+			expectOK = false
 		}
 		if expectOK != !failed {
 			if expectOK {
